@@ -1,7 +1,7 @@
 (* Byte-level encodings shared by the hash model (C17) and the codec model (C20): fixed-width
    integers, byte-string equality, hexadecimal text. Byte strings are [list Z] with elements
    in 0..255; Go strings are byte strings too. Definitions only. *)
-From Coq Require Import ZArith List Bool.
+From Coq Require Import String Ascii ZArith List Bool.
 Import ListNotations.
 Open Scope Z_scope.
 
@@ -51,3 +51,13 @@ Fixpoint hex_decode (s : bytes) : option bytes :=
   end.
 
 Definition ns_per_s : Z := 1000000000.
+
+(* compact notation for byte strings in generated case files: hx "0aff" = [10; 255] *)
+Definition hexchar_val (c : ascii) : Z :=
+  let n := Z.of_nat (nat_of_ascii c) in
+  if n <? 58 then n - 48 else n - 87.
+Fixpoint hx (s : string) : bytes :=
+  match s with
+  | String a (String b r) => (hexchar_val a * 16 + hexchar_val b) :: hx r
+  | _ => []
+  end.
